@@ -94,6 +94,10 @@ def all_rows():
         for ip, dns, uri, req_host, req_node in itertools.product(SAN4, SAN4, SAN4, (False, True), (False, True)):
             rows.append(dict(local_can=local_can, peer_can=peer_can, require=require, hs_ok=hs_ok, naming=naming,
                              ip=ip, dns=dns, uri=uri, req_host=req_host, req_node=req_node))
+        # a peer that announces a zero-length node ID: any URI identifier in its certificate then contradicts the announcement
+        for uri, req_node in itertools.product(SAN4, (False, True)):
+            rows.append(dict(local_can=local_can, peer_can=peer_can, require=require, hs_ok=hs_ok, naming=naming,
+                             ip='match', dns='absent', uri=uri, req_host=False, req_node=req_node, announce='empty'))
     return rows
 
 
@@ -124,6 +128,8 @@ def decide(row):
     ip_v = verdict(row['ip'])
     dns_v = verdict(row['dns'], has_dns_ref)
     node_v = verdict(row['uri'])
+    if row.get('announce') == 'empty' and row['uri'] != 'absent':
+        node_v = 'mismatch'
     contradiction = ip_v == 'mismatch' or dns_v == 'mismatch' or node_v == 'mismatch'
     host_ok = ip_v == 'match' or dns_v == 'match'
     node_ok = node_v == 'match'
@@ -166,7 +172,7 @@ def run_row(row, obs):
 
     write(tw.encode(dict(type='contact', flags=tw.CAN_TLS if row['peer_can'] else 0)))
     sim.settle(20000)
-    write(tw.encode(dict(type='SESS_INIT', keepalive=0, segment_mru=2 ** 20, transfer_mru=2 ** 30, nodeid=PEER_NODE.encode('utf8'), ext=[])))
+    write(tw.encode(dict(type='SESS_INIT', keepalive=0, segment_mru=2 ** 20, transfer_mru=2 ** 30, nodeid=(b'' if row.get('announce') == 'empty' else PEER_NODE.encode('utf8')), ext=[])))
     sim.settle(20000)
     msgs, status = seen()
     obs['rows'] += 1
@@ -294,4 +300,5 @@ def run_case(case):
 
 def _short(row):
     return 'can %s/%s req %s hs %s %s ip:%s dns:%s uri:%s host:%s node:%s' % (
-        row['local_can'], row['peer_can'], row['require'], row['hs_ok'], row['naming'], row['ip'], row['dns'], row['uri'], row['req_host'], row['req_node'])
+        row['local_can'], row['peer_can'], row['require'], row['hs_ok'], row['naming'], row['ip'], row['dns'], row['uri'], row['req_host'], row['req_node']) + (
+        ' announce:empty' if row.get('announce') == 'empty' else '')
